@@ -507,6 +507,19 @@ def oracle(case, obs):
     changed = {p for p in set(before) | set(after) if before.get(p) != after.get(p)}
     if info["underflow"]:
         bad.append("harness: more os.urandom(32) draws than recorded")
+    # what the case was built to do (no model involved): without any fault the save must succeed; a fault
+    # that is certain to fire (every kind except an unusable key file, which only matters when a non-empty
+    # secret reaches it) must make it fail; an unknown format name must leave the whole directory alone
+    certain = [f for f in case["faults"] if not f.startswith("keyfile-")]
+    if not case["faults"] and outcome != "ok":
+        bad.append("no fault was injected, yet the save failed: %r" % (outcome,))
+    if certain and outcome == "ok":
+        bad.append("save succeeded although a fault was injected (%s)" % ", ".join(certain))
+    if "format" in case["faults"]:
+        if outcome != ("err", "key"):
+            bad.append("unknown format name gave %r" % (outcome,))
+        if changed or info["attempts"] or info["successes"]:
+            bad.append("unknown format name, yet files were touched: %s" % sorted(changed | set(info["attempts"])))
     if outcome != "ok":
         if before.get(dest) != after.get(dest):
             bad.append("failed save (%r) changed the destination: %s -> %s" % (
@@ -525,11 +538,10 @@ def oracle(case, obs):
                 bad.append("failed save modified the existing key file %s" % p)
     else:
         written = after.get(dest)
-        if len(info["produced"]) != 1:
-            bad.append("save called dumps %d times" % len(info["produced"]))
-        elif written != info["produced"][0]:
+        # (a save that does not go through self.dumps is judged by the independent serialisation below)
+        if info["produced"] and written != info["produced"][-1]:
             bad.append("file content differs from the bytes dumps returned (%s vs %s)" % (
-                _show(written), _show(info["produced"][0])))
+                _show(written), _show(info["produced"][-1])))
         if info["ref"] is None:
             bad.append("save succeeded although an independent dumps of the same configuration fails")
         elif written != info["ref"]:
@@ -684,13 +696,14 @@ def matrix(formats):
         # key file states (root key file used by sec1, sub.sec2 and the items)
         for st in ("short", "empty", "long", "nodir", "missing"):
             name = "nk/root.key" if st == "nodir" else "k/root.key"
-            cases.append(mkcase(fmt, base, keyfiles=[(name, st)], root_kf=name, faults=["keyfile-" + st]))
+            kfault = [] if st == "missing" else ["keyfile-" + st]
+            cases.append(mkcase(fmt, base, keyfiles=[(name, st)], root_kf=name, faults=kfault))
             # ... and a later field fault on top: a missing key file is created, the destination survives
             late = _replace(base, (7,), lambda s: s[:3] + ("raise",))
-            cases.append(mkcase(fmt, late, keyfiles=[(name, st)], root_kf=name, faults=["keyfile-" + st, "to_basic"]))
+            cases.append(mkcase(fmt, late, keyfiles=[(name, st)], root_kf=name, faults=kfault + ["to_basic"]))
             # ... and an earlier one: the key file is never reached
             early = _replace(base, (0,), lambda s: s[:3] + ("raise",))
-            cases.append(mkcase(fmt, early, keyfiles=[(name, st)], root_kf=name, faults=["to_basic", "keyfile-" + st]))
+            cases.append(mkcase(fmt, early, keyfiles=[(name, st)], root_kf=name, faults=["to_basic"] + kfault))
         # the sub-configuration names its own key file
         for st in ("valid", "short", "nodir", "missing"):
             name = "nk/sub.key" if st == "nodir" else "k/sub.key"
@@ -839,7 +852,7 @@ def random_case(rng):
 
 def generate(rng, tier):
     cases = matrix(FORMATS)
-    n = 500 if tier == "quick" else 12000
+    n = 1500 if tier == "quick" else 30000
     for _ in range(n):
         cases.append(random_case(rng))
     return cases
